@@ -79,11 +79,17 @@ func setClientSubnet(req *bfe_basic.Request, dnsMsg *dns.Msg) {
 		cip = req.ClientAddr.IP
 	}
 
-	var family uint16 = 1
-	var sourceNetmask uint8 = 32
-	if cip.To16() != nil {
-		family = 2
-		sourceNetmask = 128
+	// family 1 (/32) for IPv4 -- in whatever form net.IP holds it --, family 2 (/128) for IPv6
+	var family uint16 = 2
+	var sourceNetmask uint8 = 128
+	addr := cip.To16()
+	if ip4 := cip.To4(); ip4 != nil {
+		family = 1
+		sourceNetmask = 32
+		addr = ip4
+	}
+	if addr == nil {
+		return
 	}
 
 	subnet := &dns.EDNS0_SUBNET{
@@ -91,15 +97,25 @@ func setClientSubnet(req *bfe_basic.Request, dnsMsg *dns.Msg) {
 		Family:        family,
 		SourceNetmask: sourceNetmask,
 		SourceScope:   0,
-		Address:       cip,
+		Address:       addr,
 	}
 
-	opt := new(dns.OPT)
-	opt.Hdr.Name = "."
-	opt.Hdr.Rrtype = dns.TypeOPT
-	opt.SetUDPSize(dns.DefaultMsgSize)
+	// a message carries at most one OPT RR: extend the client's one if present
+	opt := dnsMsg.IsEdns0()
+	if opt == nil {
+		opt = new(dns.OPT)
+		opt.Hdr.Name = "."
+		opt.Hdr.Rrtype = dns.TypeOPT
+		opt.SetUDPSize(dns.DefaultMsgSize)
+		dnsMsg.Extra = append(dnsMsg.Extra, opt)
+	}
+	for _, o := range opt.Option {
+		if o.Option() == dns.EDNS0SUBNET {
+			// the client made its own choice (RFC 7871 7.1.2), keep it
+			return
+		}
+	}
 	opt.Option = append(opt.Option, subnet)
-	dnsMsg.Extra = append(dnsMsg.Extra, opt)
 }
 
 func RequestToDnsMsg(req *bfe_basic.Request) (*dns.Msg, error) {
